@@ -51,6 +51,11 @@ def grammar_facts(run):
         for x in r['rhs']:
             if x.startswith('$@'):
                 mids[x] = (r['lhs'], r['rhs'])
+    # the buffer a full transition copies its source name into (whatever it is called): strcpy / strncpy (X, $1 ...) in the action of Transition
+    copies = {m.group(1) for r in G['rules'] if r['lhs'] == 'Transition' for m in [re.search(r'\bstrn?cpy\s*\(\s*(\w+)\s*,\s*\$1\b', r.get('action') or '')] if m}
+    src_buffer = copies.pop() if len(copies) == 1 else None
+    if src_buffer is None:
+        bad.append(dict(nonterminal='Transition', problem='no single buffer receives the source name ($1) of a full transition', found=sorted(copies)))
     for r in G['rules']:
         if r['lhs'].startswith('$@') and r['lhs'] in mids and mids[r['lhs']][0] in ('Transition', 'TransitionOpt'):
             owner, orhs = mids[r['lhs']]
@@ -58,7 +63,7 @@ def grammar_facts(run):
             want_ctl = 'true' if arrow == 'T_ARROW' else 'false'
             begins = [c for c in (r.get('calls') or []) if c[0] == 'proc_edge_begin']
             args = [a.strip() for a in begins[0][1].split(',')] if begins else []
-            want_src = '$1' if owner == 'Transition' else 'rootTransId'
+            want_src = '$1' if owner == 'Transition' else src_buffer
             if len(begins) != 1 or len(args) != 3 or args[2] != want_ctl or args[0] != want_src:
                 bad.append(dict(nonterminal=owner, arrow=arrow, found=begins))
     if bad:
